@@ -27,6 +27,7 @@ import Driver.InfoB
 import Driver.DictX
 import Driver.FlacBlocks
 import Driver.FlacLoad
+import Driver.FileTypes
 open Driver
 
 def dispatch (line : String) : String :=
@@ -66,6 +67,8 @@ def dispatch (line : String) : String :=
     | "flacblk" => flacblkOp a
     | "flacload" => flacloadOp a
     | "flacsave" => flacsaveOp a
+    | "ftype" => ftypeOp a
+    | "fload" => floadOp a
     | "flacinfo" => flacInfoOp a
     | "ping" => "pong"
     | _ => "bad-op"
